@@ -3,6 +3,8 @@
 package bag
 
 import (
+	"encoding/json"
+	"math/big"
 	"strings"
 
 	"github.com/ohler55/ojg/jp"
@@ -144,6 +146,13 @@ func ObjectToBag(s *slip.Scope, obj slip.Object, depth int) (v any) {
 			}
 		}
 		v = list
+	case *slip.Bignum:
+		// An integer beyond int64 is held the way the parsers hold it.
+		if (*big.Int)(val).IsInt64() {
+			v = (*big.Int)(val).Int64()
+		} else {
+			v = json.Number((*big.Int)(val).String())
+		}
 	case *flavors.Instance:
 		if val.Type != flavor {
 			slip.TypePanic(s, depth, "value", val, "nil", "t", ":false", "integer", "float", "string", "symbol", "gi::time",
